@@ -390,6 +390,7 @@ Inductive shape (hash : bool -> addr -> N) (m : mgr) (now : N) (inp : input) : m
     sget (m_flows m) id = Some f -> same_id f f' -> phase_ok f' -> teardown_due f' = false ->
     pre_ok inp id f f' pre -> arms o ->
     (forall b, f_backend_addr f = Some b -> f_backend_addr f' = Some b) ->
+    (forall p, f_pending f' = Some p -> f_pending f = Some p \/ exists src, inp = IClient src p) ->
     shape hash m now inp (updated m id f') (pre ++ o)
 | sh_remove id f f' pre o :
     sget (m_flows m) id = Some f -> same_id f f' -> pre_ok inp id f f' pre -> arms o ->
@@ -499,7 +500,7 @@ Proof.
       auto. apply pre_reply; auto.
   - apply (sh_update hash m now _ id f f1
              [(Some (f_inc f), Metric (MOut (N.of_nat (length p)))); (Some (f_inc f), SendToClient (f_client f) p)] o);
-      auto. apply pre_reply; auto.
+      auto; try (apply pre_reply; auto; fail); try (intros p0 Hp0; left; exact Hp0).
 Qed.
 
 Lemma forward_shape m id src p now :
@@ -521,6 +522,7 @@ Proof.
     + unfold phase_ok. cbn. rewrite ?Ep. split; [exact Hb | discriminate].
     + rewrite <- (inv_caps _ HI _ _ Hg). apply teardown_due_ext; reflexivity.
     + constructor.
+    + intros p0 Hp0. right. exists src. cbn in Hp0. inversion Hp0. reflexivity.
   - (* Established: forward *)
     destruct Hp as (Hb & Hpend).
     destruct (f_backend_addr f) as [b|] eqn:Eb; [|congruence].
@@ -540,8 +542,9 @@ Proof.
     assert (hdr = [] \/ hdr = dgram_header (f_client f) b) as Hh by (unfold hdr; destruct pp; auto).
     destruct (teardown_due f2) eqn:Ht; cbn [fst snd].
     + apply (sh_remove hash m now _ id f f2 _ o); auto. eapply pre_forward; eauto.
-    + apply (sh_update hash m now _ id f f2 _ o); auto; [eapply pre_forward; eauto|].
-      intros b0 Hb0. congruence.
+    + apply (sh_update hash m now _ id f f2 _ o); auto; [eapply pre_forward; eauto| |].
+      * intros b0 Hb0. congruence.
+      * intros p0 Hp0. rewrite Hpe2 in Hp0. cbn in Hp0. left. exact Hp0.
 Qed.
 
 Lemma on_client_datagram_shape m src p now :
@@ -606,6 +609,7 @@ Proof.
               (Some (f_inc f), SendToBackend a (hdr ++ payload))] o); auto.
     + eapply pre_resolve; eauto.
     + intros b0 Hb0. congruence.
+    + intros p0 Hp0. rewrite Hpe4 in Hp0. cbn in Hp0. discriminate.
 Qed.
 
 Lemma timeout_fold m now due : forall outs,
@@ -743,7 +747,7 @@ Qed.
 
 Lemma shape_inv hash m now inp m' o : Inv m -> shape hash m now inp m' o -> Inv m'.
 Proof.
-  intros HI H. destruct H as [o Ho|m' E1 E2 E3 E4 H5 H6|id f f' pre o Hg Hs Hp Ht Hpre Ho Hmono
+  intros HI H. destruct H as [o Ho|m' E1 E2 E3 E4 H5 H6|id f f' pre o Hg Hs Hp Ht Hpre Ho Hmono Hpend'
                               |id f f' pre o Hg Hs Hpre Ho|m' o Hr|src p o m' cl Ei Ht Hd Hc Ho Em Ecl Hne Hpne].
   - exact HI.
   - destruct HI. constructor; rewrite ?E1, ?E2, ?E3, ?E4; auto.
@@ -855,7 +859,7 @@ Lemma created_only_under_cap m now inp i :
   i = m_ninc m.
 Proof.
   intros HI Hin. pose proof (step_shape hash m now inp HI) as Hs.
-  destruct Hs as [o Ho|m' E1 E2 E3 E4 H5 H6|id f f' pre o Hg Hs Hp Ht Hpre Ho Hmono
+  destruct Hs as [o Ho|m' E1 E2 E3 E4 H5 H6|id f f' pre o Hg Hs Hp Ht Hpre Ho Hmono Hpend'
                  |id f f' pre o Hg Hs Hpre Ho|m' o Hr|src p o m' cl Ei Ht Hd Hc Ho Em Ecl Hne Hpne].
   - rewrite Forall_forall in Ho. specialize (Ho _ Hin). discriminate.
   - destruct Hin.
@@ -1070,6 +1074,67 @@ Proof.
     exists (id, f). split; [apply sitems_spec; exact Hg | exact He].
 Qed.
 
+(** the payloads incarnation [i] forwarded, in order *)
+Fixpoint fwd (i : N) (o : list lout) : list (list N) :=
+  match o with
+  | [] => []
+  | (Some j, SendToBackend _ q) :: o' => if N.eqb j i then q :: fwd i o' else fwd i o'
+  | _ :: o' => fwd i o'
+  end.
+
+Lemma fwd_app i a b : fwd i (a ++ b) = fwd i a ++ fwd i b.
+Proof.
+  induction a as [|[l x] a IH]; cbn; auto.
+  destruct l as [j|]; destruct x; auto. destruct (N.eqb j i); cbn; rewrite IH; reflexivity.
+Qed.
+
+Lemma fwd_none i o :
+  (forall x, In x o -> match snd x with SendToBackend _ _ => False | _ => True end) -> fwd i o = [].
+Proof.
+  induction o as [|[l x] o IH]; intros H; cbn; auto.
+  pose proof (H (l, x) (or_introl eq_refl)) as Hx. cbn in Hx.
+  assert (fwd i o = []) as E by (apply IH; intros y Hy; apply H; right; exact Hy).
+  destruct l; destruct x; auto. destruct Hx.
+Qed.
+
+Lemma fwd_nolabel i o : (forall x, In x o -> fst x = None) -> fwd i o = [].
+Proof.
+  induction o as [|[l x] o IH]; intros H; cbn; auto.
+  pose proof (H (l, x) (or_introl eq_refl)) as Hx. cbn in Hx. subst l.
+  apply IH. intros y Hy. apply H. right. exact Hy.
+Qed.
+
+Lemma fwd_in i o q : In q (fwd i o) -> exists d, In (Some i, SendToBackend d q) o.
+Proof.
+  induction o as [|[l x] o IH]; cbn; [intros []|].
+  assert (In q (fwd i o) -> exists d, (l, x) = (Some i, SendToBackend d q) \/ In (Some i, SendToBackend d q) o) as Hrec.
+  { intros H. destruct (IH H) as (d & Hd). exists d. right. exact Hd. }
+  destruct l as [j|]; destruct x; auto.
+  destruct (N.eqb_spec j i) as [->|Hne]; auto.
+  intros [<-|H]; [exists dst; left; reflexivity | auto].
+Qed.
+
+Definition hdr_ok (hdr : list N) : Prop := hdr = [] \/ exists c d, hdr = dgram_header c d.
+
+(** where a forwarded payload comes from: the client datagram being handled, or
+    the one buffered for the flow being resolved *)
+Definition fwd_origin (m : mgr) (inp : input) (i : N) (q : list N) : Prop :=
+  (exists src p hdr, inp = IClient src p /\ q = hdr ++ p /\ hdr_ok hdr) \/
+  (exists id bid a f p hdr, inp = IResolved id bid a /\ sget (m_flows m) id = Some f /\ f_inc f = i /\
+      f_backend_addr f = None /\ f_pending f = Some p /\ q = hdr ++ p /\ hdr_ok hdr).
+
+Lemma fwd_pre m inp id f f' pre i :
+  pre_ok inp id f f' pre -> sget (m_flows m) id = Some f ->
+  fwd i pre = [] \/ exists q, fwd i pre = [q] /\ fwd_origin m inp i q.
+Proof.
+  intros H Hg. destruct H as [|src p b hdr Ei Hb Hb' Hh|bid a p hdr Ei Hb Hpe Hb' Hh|bid a Ei Hb Hb'|p Ei Hb' Hb]; cbn; auto.
+  - destruct (N.eqb_spec (f_inc f) i) as [E|E]; auto. right. eexists. split; [reflexivity|].
+    left. exists src, p, hdr. repeat split; auto. destruct Hh as [-> | ->]; [left; reflexivity | right; eauto].
+  - destruct (N.eqb_spec (f_inc f) i) as [E|E]; auto. right. eexists. split; [reflexivity|].
+    right. exists id, bid, a, f, p, hdr. repeat split; auto.
+    destruct Hh as [-> | ->]; [left; reflexivity | right; eauto].
+Qed.
+
 Record SF (m m' : mgr) (inp : input) (o : list lout) : Prop := {
   sf_ninc : (m_ninc m <= m_ninc m')%N;
   sf_lbl : forall i x, In (Some i, x) o ->
@@ -1098,6 +1163,9 @@ Record SF (m m' : mgr) (inp : input) (o : list lout) : Prop := {
         f_backend_addr f = None /\
         (forall j g, sget (m_flows m') j = Some g -> f_inc g = i -> f_backend_addr g = Some a) /\
         (forall d p, In (Some i, SendToBackend d p) o -> d = a);
+  sf_pending : forall id f' p, sget (m_flows m') id = Some f' -> f_pending f' = Some p ->
+      (exists f, sget (m_flows m) id = Some f /\ f_pending f = Some p) \/ (exists src, inp = IClient src p);
+  sf_fwd : forall i, fwd i o = [] \/ exists q, fwd i o = [q] /\ fwd_origin m inp i q;
 }.
 
 Lemma live_inc_updated m id f f' i :
@@ -1201,7 +1269,7 @@ Proof. intros H Hin. destruct (pre_ok_in _ _ _ _ _ _ H Hin) as (E & _). cbn in E
 Lemma shape_SF hash m now inp m' o : Inv m -> shape hash m now inp m' o -> SF m m' inp o.
 Proof.
   intros HI H. pose proof (shape_inv _ _ _ _ _ _ HI H) as HI'.
-  destruct H as [o Ho|m' E1 E2 E3 E4 H5 H6|id f f' pre o Hg Hs Hp Ht Hpre Ho Hmono
+  destruct H as [o Ho|m' E1 E2 E3 E4 H5 H6|id f f' pre o Hg Hs Hp Ht Hpre Ho Hmono Hpend'
                 |id f f' pre o Hg Hs Hpre Ho|m' o Hr|src p o m' cl Ei Ht Hd Hc Ho Em Ecl Hne Hpne].
   - (* unchanged *)
     rewrite Forall_forall in Ho.
@@ -1213,11 +1281,15 @@ Proof.
     + intros id f' Hg. left. exists f'. split; [exact Hg|]. split; [apply same_id_refl|auto].
     + intros i H1 H2. contradiction.
     + intros Hc. congruence.
+    + intros id f' p Hg Hpe. left. eauto.
+    + intros i. left. apply fwd_nolabel. exact Ho.
   - (* config *)
     constructor; try (intros; cbn in *; contradiction); try (intros; reflexivity).
     + lia.
     + intros id f'. rewrite E1. intros Hg. left. exists f'. split; [exact Hg|]. split; [apply same_id_refl|auto].
     + intros i H1 H2. exfalso. apply H2. unfold live_inc in *. rewrite E1. exact H1.
+    + intros id f' p. rewrite E1. intros Hg Hpe. left. eauto.
+    + intros i. left. reflexivity.
   - (* in-place update *)
     pose proof Hs as (Hcl & Hcfg & Hinc).
     assert (forall i, closes i (pre ++ o) = 0) as Hc0.
@@ -1256,6 +1328,13 @@ Proof.
         -- intros Hj He. pose proof (inv_inc_inj _ HI _ _ _ _ Hj Hg He). subst j.
            rewrite Nat.eqb_refl in E. discriminate.
       * intros d q Hin2. destruct (Hin_pre _ _ Hin2) as (Hin2' & _). eapply Hu; eauto.
+    + intros j g p. unfold updated. cbn. rewrite sget_sset. destruct (Nat.eqb j id) eqn:E.
+      * apply Nat.eqb_eq in E. subst j. rewrite Hg. intros H Hpe. inv H.
+        destruct (Hpend' _ Hpe) as [H|H]; [left; eauto | right; exact H].
+      * intros Hj Hpe. left. eauto.
+    + intros i. rewrite fwd_app, (fwd_nolabel i o), app_nil_r.
+      * eapply fwd_pre; eauto.
+      * intros x Hx. destruct (arms_in _ _ Ho Hx) as (d & ->). reflexivity.
   - (* teardown of one flow *)
     pose proof Hs as (Hcl & Hcfg & Hinc).
     assert (forall i, closes i (pre ++ evict_close id f ++ o) = if N.eqb (f_inc f) i then 1 else 0) as Hcl0.
@@ -1303,6 +1382,11 @@ Proof.
       * intros j g Hj He. exfalso. assert (live_inc (removed m id f) (f_inc f)) as Hli by (exists j, g; auto).
         apply (Hl _ HI Hg) in Hli. destruct Hli as (_ & Hne). congruence.
       * intros d q Hin2. pose proof (Hin_pre _ _ Hin2 I) as Hin2'. eapply Hu; eauto.
+    + intros j g p. unfold removed. cbn. rewrite sget_sremove. destruct (Nat.eqb j id); [discriminate|].
+      intros Hj Hpe. left. eauto.
+    + intros i. rewrite !fwd_app, (fwd_nolabel i o).
+      * cbn [evict_close fwd]. rewrite !app_nil_r. eapply fwd_pre; eauto.
+      * intros x Hx. destruct (arms_in _ _ Ho Hx) as (d & ->). reflexivity.
   - (* a run of teardowns *)
     assert (m_ninc m' = m_ninc m) as Hn.
     { clear HI HI'. induction Hr as [m|m m' a o Ha H IH|m id f m' o Hg H IH]; auto. }
@@ -1325,6 +1409,10 @@ Proof.
     + intros Hc. congruence.
     + intros i d p Hx. destruct (Hin _ _ Hx) as (_ & []).
     + intros i d p Hx. destruct (Hin _ _ Hx) as (_ & []).
+    + intros j g p Hj Hpe. left. exists g. split; [eapply rems_mono; eauto | exact Hpe].
+    + intros i. left. apply fwd_none. intros [l x] Hx. cbn. destruct l as [j|].
+      * destruct (Hin _ _ Hx) as (_ & Hk). destruct x; auto.
+      * destruct x; auto. destruct (rems_in _ _ _ _ Hr Hx) as [(d & E)|(id & f & _ & [E|E])]; discriminate.
   - (* admission *)
     subst m' inp. set (f := admit_flow m src p now). pose proof (inv_wf _ HI) as Hwf.
     pose proof (sinsert_fresh Hwf) as Hfresh.
@@ -1364,6 +1452,13 @@ Proof.
       pose proof (inv_inc _ HI _ _ Hj0). lia.
     + intros i d q Hx. destruct (Hin _ _ Hx) as (_ & []).
     + intros i d q Hx. destruct (Hin _ _ Hx) as (_ & []).
+    + intros j g q Hj Hpe. destruct (Hget _ _ Hj) as [(-> & ->)|(Hne2 & Hj0)].
+      * right. exists src. cbn in Hpe. inversion Hpe. reflexivity.
+      * left. eauto.
+    + intros i. left. apply fwd_none. intros [l x] Hx. cbn. destruct l as [j|].
+      * destruct (Hin _ _ Hx) as (_ & Hk). destruct x; auto.
+      * destruct x; auto. unfold outs in Hx. cbn in Hx. destruct Hx as [H|[H|Hx]]; try discriminate.
+        destruct (arms_in _ _ Ho Hx). discriminate.
 Qed.
 
 (* ------------------------------------------------------------------ *)
@@ -1379,6 +1474,41 @@ Proof. unfold allouts. rewrite flat_map_app. cbn. rewrite app_nil_r. reflexivity
 
 Lemma in_allouts tr e x : In e tr -> In x (ev_out e) -> In x (allouts tr).
 Proof. intros H1 H2. unfold allouts. apply in_flat_map. eauto. Qed.
+
+Inductive sublist {A : Type} : list A -> list A -> Prop :=
+| sl_nil : sublist [] []
+| sl_skip x l1 l2 : sublist l1 l2 -> sublist l1 (x :: l2)
+| sl_take x l1 l2 : sublist l1 l2 -> sublist (x :: l1) (x :: l2).
+
+Lemma sublist_nil_l {A} (l : list A) : sublist [] l.
+Proof. induction l; [apply sl_nil | apply sl_skip; auto]. Qed.
+
+Lemma sublist_app_r {A} (a l r : list A) : sublist a l -> sublist a (l ++ r).
+Proof.
+  induction 1; cbn.
+  - apply sublist_nil_l.
+  - apply sl_skip; auto.
+  - apply sl_take; auto.
+Qed.
+
+Lemma sublist_snoc {A} (a l : list A) x : sublist a l -> sublist (a ++ [x]) (l ++ [x]).
+Proof.
+  induction 1; cbn.
+  - apply sl_take. apply sl_nil.
+  - apply sl_skip; auto.
+  - apply sl_take; auto.
+Qed.
+
+Lemma sublist_single {A} (l : list A) x : In x l -> sublist [x] l.
+Proof.
+  induction l as [|y l IH]; intros Hin; [destruct Hin|].
+  destruct Hin as [->|Hin]; [apply sl_take; apply sublist_nil_l | apply sl_skip; auto].
+Qed.
+
+(** the forwarded payload [q] is the datagram of the client event [e],
+    optionally behind a PROXY v2 header *)
+Definition carried (e : event) (q : list N) : Prop :=
+  exists src p hdr, ev_in e = IClient src p /\ q = hdr ++ p /\ hdr_ok hdr.
 
 Record TI (m : mgr) (tr : list event) : Prop := {
   ti_fresh : forall i x, In (Some i, x) (allouts tr) -> (i < m_ninc m)%N;
@@ -1402,6 +1532,9 @@ Record TI (m : mgr) (tr : list event) : Prop := {
       In (Some i, OpenUpstream id a) (allouts tr) -> In (Some i, SendToBackend d p) (allouts tr) -> d = a;
   ti_open_res : forall e i id a, In e tr -> In (Some i, OpenUpstream id a) (ev_out e) ->
       exists bid, ev_in e = IResolved id bid a;
+  ti_pending : forall id f p, sget (m_flows m) id = Some f -> f_pending f = Some p ->
+      exists e src, In e tr /\ ev_in e = IClient src p;
+  ti_order : forall i, exists es, sublist es tr /\ Forall2 carried es (fwd i (allouts tr));
 }.
 
 Lemma TI_nil c mf mrx : TI (mgr_new c mf mrx) [].
@@ -1409,7 +1542,8 @@ Proof.
   assert (forall id f, sget (m_flows (mgr_new c mf mrx)) id = Some f -> False) as Hno.
   { intros id f H. unfold sget in H. cbn in H. destruct id; discriminate. }
   constructor; cbn; try (intros; contradiction); try (intros; exfalso; eapply Hno; eauto; fail).
-  intros i H. lia.
+  - intros i H. lia.
+  - intros i. exists []. split; constructor.
 Qed.
 
 Lemma closes_fresh i o : (forall j x, In (Some j, x) o -> j <> i) -> closes i o = 0.
@@ -1512,6 +1646,29 @@ Proof.
     + eapply (ti_open_res _ _ HT); eauto.
     + cbn [ev_in ev_out fst snd] in *.
       destruct (sf_open _ _ _ _ HS _ _ _ Hin) as (g & bid & -> & _). eauto.
+  - (* a buffered datagram is some earlier client datagram *)
+    intros id f' p Hg Hpe. destruct (sf_pending _ _ _ _ HS _ _ _ Hg Hpe) as [(f & Hg0 & Hpe0)|(src & Hi)].
+    + destruct (ti_pending _ _ HT _ _ _ Hg0 Hpe0) as (e & src & He & Hin). exists e, src.
+      split; [apply in_or_app; left; exact He | exact Hin].
+    + exists (now, inp, o), src. split; [apply in_or_app; right; left; reflexivity | exact Hi].
+  - (* forwarded payloads = an in-order, duplicate-free selection of the client datagrams *)
+    intros i. rewrite fwd_app. destruct (ti_order _ _ HT i) as (es & Hsub & Hcar).
+    destruct (sf_fwd _ _ _ _ HS i) as [E|(q & E & [(src & p & hdr & Hi & Hq & Hh)|(id & bid & a & f & p & hdr & Hi & Hg & Hinc & Hb & Hpe & Hq & Hh)])];
+      rewrite E.
+    + rewrite app_nil_r. exists es. split; [apply sublist_app_r; exact Hsub | exact Hcar].
+    + exists (es ++ [(now, inp, o)]). split; [apply sublist_snoc; exact Hsub|].
+      apply Forall2_app; [exact Hcar|]. constructor; [|constructor].
+      exists src, p, hdr. auto.
+    + (* the flush at resolution: nothing was forwarded before *)
+      assert (fwd i (allouts tr) = []) as E0.
+      { destruct (fwd i (allouts tr)) as [|q0 l] eqn:Ef; auto. exfalso.
+        assert (In q0 (fwd i (allouts tr))) as Hq0 by (rewrite Ef; left; reflexivity).
+        destruct (fwd_in _ _ _ Hq0) as (d & Hd). subst i.
+        pose proof (ti_live_tob _ _ HT _ _ Hg _ _ Hd). congruence. }
+      rewrite E0. cbn [app].
+      destruct (ti_pending _ _ HT _ _ _ Hg Hpe) as (e & src & He & Hin).
+      exists [e]. split; [apply sublist_app_r; apply sublist_single; exact He|].
+      constructor; [|constructor]. exists src, p, hdr. auto.
 Qed.
 
 Lemma run_TI hash h : forall m tr0,
@@ -1597,7 +1754,7 @@ Proof.
     - destruct Hi' as [H|[H|[]]]; discriminate. }
   assert (forall o, arms o -> forall x, In x o -> match snd x with SendToBackend _ _ => False | _ => True end) as Harms.
   { intros o Ho x Hx. destruct (arms_in _ _ Ho Hx) as (dd & ->). exact I. }
-  destruct Hs as [o Ho|m' E1 E2 E3 E4 H5 H6|id f f' pre o Hg Hs Hp Ht Hpre' Ho Hmono
+  destruct Hs as [o Ho|m' E1 E2 E3 E4 H5 H6|id f f' pre o Hg Hs Hp Ht Hpre' Ho Hmono Hpend'
                  |id f f' pre o Hg Hs Hpre' Ho|m' o Hr|src p o m' cl Ei Ht Hd Hc Ho Em Ecl Hne Hpne].
   - rewrite Forall_forall in Ho. specialize (Ho _ Hin). discriminate.
   - destruct Hin.
@@ -1655,3 +1812,213 @@ Proof.
 Qed.
 
 End Exact.
+
+(* ------------------------------------------------------------------ *)
+(** Part 8: the timer contract with the shell.  The shell owns ONE one-shot
+    timer; every [ArmTimer] replaces it, a firing ([ITimeout]) spends it. *)
+
+Fixpoint last_arm (os : list lout) (acc : option N) : option N :=
+  match os with
+  | [] => acc
+  | (_, ArmTimer d) :: os' => last_arm os' (Some d)
+  | _ :: os' => last_arm os' acc
+  end.
+
+Definition spend (i : input) (t : option N) : option N :=
+  match i with ITimeout => None | _ => t end.
+
+Fixpoint shell_timer (tr : list event) (t : option N) : option N :=
+  match tr with
+  | [] => t
+  | e :: tr' => shell_timer tr' (last_arm (ev_out e) (spend (ev_in e) t))
+  end.
+
+(** the shell timer shows the armed deadline whenever there is one *)
+Definition TP (m : mgr) (t : option N) : Prop :=
+  match m_armed m with Some d => t = Some d | None => True end.
+
+(** "running [f] keeps the shell timer in step with the armed deadline" *)
+Definition keeps (m : mgr) (r : mgr * list lout) : Prop :=
+  forall t, TP m t -> TP (fst r) (last_arm (snd r) t).
+
+Lemma last_arm_app a b t : last_arm (a ++ b) t = last_arm b (last_arm a t).
+Proof.
+  revert t. induction a as [|[l x] a IH]; intros t; cbn; auto.
+  destruct x; auto.
+Qed.
+
+Lemma keeps_reschedule m : keeps m (reschedule m).
+Proof.
+  unfold keeps, reschedule, TP. intros t Ht.
+  destruct (opt_N_eqb (min_deadline (m_flows m)) (m_armed m)) eqn:E; cbn [fst snd].
+  - exact Ht.
+  - destruct (min_deadline (m_flows m)) as [d|]; cbn; auto.
+Qed.
+
+Lemma TP_same_armed m m' t : m_armed m' = m_armed m -> TP m t -> TP m' t.
+Proof. unfold TP. intros ->. auto. Qed.
+
+(** [reschedule] after any change that leaves [m_armed] alone *)
+Lemma keeps_reschedule_after m m1 :
+  m_armed m1 = m_armed m -> keeps m (reschedule m1).
+Proof. intros E t Ht. apply keeps_reschedule. eapply TP_same_armed; eauto. Qed.
+
+Lemma keeps_prefix m r pre :
+  (forall x, In x pre -> match snd x with ArmTimer _ => False | _ => True end) ->
+  keeps m r -> keeps m (fst r, pre ++ snd r).
+Proof.
+  intros Hpre H t Ht. cbn [fst snd]. rewrite last_arm_app.
+  assert (last_arm pre t = t) as ->.
+  { clear H Ht. revert t. induction pre as [|[l x] pre IH]; intros t; cbn; auto.
+    pose proof (Hpre (l, x) (or_introl eq_refl)) as Hx. cbn in Hx.
+    destruct x; try (apply IH; intros y Hy; apply Hpre; right; exact Hy). destruct Hx. }
+  apply H. exact Ht.
+Qed.
+
+Lemma keeps_close_flow m m1 id :
+  m_armed m1 = m_armed m -> keeps m (close_flow m1 id).
+Proof.
+  intros E. unfold close_flow.
+  destruct (sget (m_flows m1) id) as [f|]; [|intros t Ht; cbn; eapply TP_same_armed; eauto].
+  destruct (phase_eqb (f_phase f) Closing); [intros t Ht; cbn; eapply TP_same_armed; eauto|].
+  match goal with |- context [reschedule ?x] =>
+    pose proof (keeps_reschedule_after m x) as H; destruct (reschedule x) as [m2 o] end.
+  specialize (H E).
+  apply (keeps_prefix m (m2, o) [(Some (f_inc f), Metric MEvicted); (Some (f_inc f), CloseFlow id)]); auto.
+  intros x [<-|[<-|[]]]; exact I.
+Qed.
+
+Lemma keeps_finish m m1 id td : m_armed m1 = m_armed m -> keeps m (finish m1 id td).
+Proof.
+  intros E. unfold finish. destruct td; [apply keeps_close_flow | apply keeps_reschedule_after]; exact E.
+Qed.
+
+Lemma keeps_drop m (o : list lout) :
+  (forall x, In x o -> match snd x with ArmTimer _ => False | _ => True end) -> keeps m (m, o).
+Proof.
+  intros H. apply (keeps_prefix m (m, []) o) in H.
+  - cbn in H. rewrite app_nil_r in H. exact H.
+  - intros t Ht. exact Ht.
+Qed.
+
+Ltac no_arm := let x := fresh "x" in let Hx := fresh "Hx" in
+  intros x Hx; cbn in Hx; repeat (destruct Hx as [<-|Hx]; [exact I|]); destruct Hx.
+
+Section TimerContract.
+Variable hash : bool -> addr -> N.
+
+Lemma keeps_step_prefix m (r : mgr * list lout) pre :
+  (forall x, In x pre -> match snd x with ArmTimer _ => False | _ => True end) ->
+  keeps m r -> keeps m (let '(m2, o) := r in (m2, pre ++ o)).
+Proof. intros H K. destruct r as [m2 o]. apply (keeps_prefix m (m2, o) pre H K). Qed.
+
+Lemma keeps_forward m id p now : keeps m (forward_on_existing_flow m id p now).
+Proof.
+  unfold forward_on_existing_flow.
+  destruct (sget (m_flows m) id) as [f|]; [|apply keeps_drop; no_arm].
+  destruct (f_phase f).
+  - apply keeps_reschedule_after. reflexivity.
+  - destruct (f_backend_addr (flow_on_client f now)) as [b|]; [|apply keeps_drop; no_arm].
+    destruct (take_pp (flow_on_client f now)) as [pp f2].
+    apply keeps_step_prefix; [no_arm|]. apply keeps_finish. reflexivity.
+  - apply keeps_drop; no_arm.
+Qed.
+
+Lemma keeps_client m src p now : keeps m (on_client_datagram hash m src p now).
+Proof.
+  unfold on_client_datagram.
+  case_if; [apply keeps_drop; no_arm|].
+  destruct (c_cluster (m_cluster m)); [apply keeps_drop; no_arm|].
+  destruct p as [|p0 p']; [apply keeps_drop; no_arm|].
+  destruct (tget (m_table m) _) as [id|]; [apply keeps_forward|].
+  destruct (m_draining m); [apply keeps_drop; no_arm|].
+  case_if; [apply keeps_drop; no_arm|].
+  destruct (sinsert _ _) as [s' id].
+  apply keeps_step_prefix; [no_arm|]. apply keeps_reschedule_after. reflexivity.
+Qed.
+
+Lemma keeps_resolved m id bid a now : keeps m (on_backend_resolved m id bid a now).
+Proof.
+  unfold on_backend_resolved.
+  destruct (sget (m_flows m) id) as [f|]; [|apply keeps_drop; no_arm].
+  destruct (negb (phase_eqb (f_phase f) Awaiting)); [apply keeps_drop; no_arm|].
+  cbn [set_flow_live f_pending].
+  destruct (f_pending f) as [payload|].
+  - destruct (take_pp _) as [pp f4].
+    apply keeps_step_prefix; [no_arm|]. apply keeps_finish. reflexivity.
+  - match goal with |- context [reschedule ?x] =>
+      pose proof (keeps_reschedule_after m x eq_refl) as H; destruct (reschedule x) as [m2 o] end.
+    apply (keeps_prefix m (m2, o) [(Some (f_inc f), OpenUpstream id a)]); auto. no_arm.
+Qed.
+
+Lemma keeps_backend m id p now : keeps m (on_backend_datagram m id p now).
+Proof.
+  unfold on_backend_datagram.
+  case_if; [apply keeps_drop; no_arm|].
+  destruct (sget (m_flows m) id) as [f|]; [|apply keeps_drop; no_arm].
+  destruct (negb (phase_eqb (f_phase f) Established)); [apply keeps_drop; no_arm|].
+  apply keeps_step_prefix; [no_arm|]. apply keeps_finish. reflexivity.
+Qed.
+
+(** folds: the accumulated outputs grow at the end *)
+Lemma keeps_close_all_fold ids : forall m outs t,
+  TP m (last_arm outs t) ->
+  TP (fst (fold_left close_one ids (m, outs))) (last_arm (snd (fold_left close_one ids (m, outs))) t).
+Proof.
+  induction ids as [|id ids IH]; intros m outs t Ht; cbn [fold_left]; [exact Ht|].
+  pose proof (keeps_close_flow m m id eq_refl) as K. destruct (close_flow m id) as [m1 o1] eqn:Ec.
+  assert (close_one (m, outs) id = (m1, outs ++ o1)) as E by (unfold close_one; rewrite Ec; reflexivity).
+  rewrite E. apply IH. rewrite last_arm_app. apply (K _ Ht).
+Qed.
+
+Lemma keeps_timeout_fold now ids : forall m outs t,
+  TP m (last_arm outs t) ->
+  TP (fst (fold_left (timeout_one now) ids (m, outs)))
+     (last_arm (snd (fold_left (timeout_one now) ids (m, outs))) t).
+Proof.
+  induction ids as [|id ids IH]; intros m outs t Ht; cbn [fold_left]; [exact Ht|].
+  assert (exists m1 o1, timeout_one now (m, outs) id = (m1, outs ++ o1) /\ TP m1 (last_arm (outs ++ o1) t))
+    as (m1 & o1 & E & H1).
+  { unfold timeout_one. destruct (sget (m_flows m) id) as [f|].
+    - destruct (N.leb (f_deadline f) now && negb (phase_eqb (f_phase f) Closing)).
+      + pose proof (keeps_close_flow m m id eq_refl) as K. destruct (close_flow m id) as [m1 o1].
+        exists m1, o1. split; [reflexivity|]. rewrite last_arm_app. apply (K _ Ht).
+      + exists m, []. rewrite app_nil_r. auto.
+    - exists m, []. rewrite app_nil_r. auto. }
+  rewrite E. apply IH. exact H1.
+Qed.
+
+(** one step: a firing spends the timer first *)
+Lemma step_keeps_timer m now i t :
+  TP m t -> TP (fst (step hash m now i)) (last_arm (snd (step hash m now i)) (spend i t)).
+Proof.
+  intros Ht. destruct i as [src p|id p|id bid a|c|n|n| | |id| ]; cbn [step spend].
+  - apply keeps_client; exact Ht.
+  - apply keeps_backend; exact Ht.
+  - apply keeps_resolved; exact Ht.
+  - exact Ht.
+  - exact Ht.
+  - exact Ht.
+  - exact Ht.
+  - (* handle_timeout: whatever the timer showed, it is spent; the final reschedule
+       starts from "nothing armed" and re-emits the request *)
+    unfold handle_timeout.
+    destruct (fold_left (timeout_one now) _ (m, [])) as [m1 o1].
+    pose proof (keeps_reschedule (set_armed m1 None)) as K.
+    destruct (reschedule (set_armed m1 None)) as [m2 o2]. cbn [fst snd].
+    rewrite last_arm_app. apply K. exact I.
+  - apply (keeps_close_flow m m id eq_refl). exact Ht.
+  - unfold close_all. apply (keeps_close_all_fold _ m [] t). exact Ht.
+Qed.
+
+Lemma run_keeps_timer h : forall m t,
+  TP m t -> TP (fst (run hash m h)) (shell_timer (snd (run hash m h)) t).
+Proof.
+  induction h as [|[now i] h IH]; intros m t Ht; cbn [run]; [exact Ht|].
+  pose proof (step_keeps_timer m now i t Ht) as H1.
+  destruct (step hash m now i) as [m1 o]. cbn [fst snd] in H1.
+  specialize (IH m1 _ H1). destruct (run hash m1 h) as [m2 tr]. cbn [fst snd shell_timer ev_out ev_in] in *.
+  exact IH.
+Qed.
+
+End TimerContract.
